@@ -23,7 +23,14 @@ func hashBytes(b []byte) uint32 {
 }
 
 func chunkSummary(c *data.Chunk) string {
-	return fmt.Sprintf(";s=%d,m=%d,sp=%d,c=%d,h=%d", c.Size(), c.Remaining(), c.Space(), c.VerifCap(), hashBytes(c.Payload()))
+	e, a := 0, 0
+	if c.Empty() {
+		e = 1
+	}
+	if c.Available(3) {
+		a = 1
+	}
+	return fmt.Sprintf(";s=%d,m=%d,sp=%d,c=%d,h=%d,e=%d,a=%d", c.Size(), c.Remaining(), c.Space(), c.VerifCap(), hashBytes(c.Payload()), e, a)
 }
 
 var c11Limits = []int{0, 0, 0, 1, 2, 5, 10, 10, 63, 64, 65, 100, 300, 4096}
